@@ -355,6 +355,10 @@ func MuteLibraryStdout() {
 	})
 }
 
+// EnvHook, when set by a package that knows which environment variables the library reads (harness/gen), runs before the
+// tests: it sets those variables, differently per shard - nothing the listed properties promise depends on the environment.
+var EnvHook func()
+
 // Main is the TestMain body of every check package.
 func Main(m *testing.M, property string) {
 	out.Property = property
@@ -367,6 +371,9 @@ func Main(m *testing.M, property string) {
 		os.Exit(2)
 	}
 	flag.Parse()
+	if EnvHook != nil {
+		EnvHook()
+	}
 	code := m.Run()
 	mu.Lock()
 	writeReplays()
